@@ -9,6 +9,7 @@
 EXTENDS GenReal, TraceBase
 T == INSTANCE Text WITH MAXRUN <- 3, NUMBS <- 31, CAP1 <- 64, CAP2S <- 32, CAP2L <- 64
 S == INSTANCE Stream WITH BUF <- 32768
+Msg == INSTANCE Messages
 CONSTANT LOCKSTEP      \* TRUE: also step the implementation-shaped model L2 and compare (thorough tier)
 VARIABLES l, j, gens
 vars == <<l, j, gens>>
@@ -116,7 +117,15 @@ EvAnchor == /\ Ev("anchor")
                          /\ ((E.flags \div 2) % 2 = 1 => (rn.err = "none" /\ txt(rn) = E.want)),
                          <<l, "anchor", E.file, txt(rt), txt(rn)>>)
             /\ UNCHANGED gens /\ Done
-Next == EvAnchor \/ EvStream \/ EvFile \/ EvEasy \/ EvRealZeros \/ EvSame \/ EvNew \/ EvZeros \/ EvClone \/ EvReset \/ EvUpd \/ EvFix \/ EvFin
+(* the error values: displayed text and classification (outside the listed properties: drift) *)
+EvErrs == /\ Ev("errs")
+          /\ Drift(/\ {E.gen[i].name : i \in 1..Len(E.gen)} = DOMAIN Msg!GeneratorErrorMsg
+                   /\ \A i \in 1..Len(E.gen) : /\ E.gen[i].msg = Msg!GeneratorErrorMsg[E.gen[i].name]
+                                                /\ E.gen[i].tl = Msg!GeneratorErrorIsSizeTooLarge[E.gen[i].name]
+                   /\ {E.op[i].name : i \in 1..Len(E.op)} = DOMAIN Msg!OperationErrorMsg
+                   /\ \A i \in 1..Len(E.op) : E.op[i].msg = Msg!OperationErrorMsg[E.op[i].name], <<l, "error-texts">>)
+          /\ UNCHANGED gens /\ Done
+Next == EvErrs \/ EvAnchor \/ EvStream \/ EvFile \/ EvEasy \/ EvRealZeros \/ EvSame \/ EvNew \/ EvZeros \/ EvClone \/ EvReset \/ EvUpd \/ EvFix \/ EvFin
 Spec == Init /\ [][Next]_vars
 Progress == Mark(l)
 =============================================================================
